@@ -771,64 +771,65 @@ Proof.
     rewrite Hn. apply andb_true_r.
 Qed.
 
-(* ---- SortedFileNeedleMap.Delete (known finding 0) ---- *)
-(* what the property demands of a delete on the sorted-file map *)
-Definition sorted_delete_spec (osz : N) (es : list entry) (key : N) : Prop :=
-  forall idx off,
-    (* 0 = indexFileOffset of a freshly opened SortedFileNeedleMap *)
-    let '(err, idx', _, sdx') := sorted_delete osz idx 0 (encode osz es) key off in
-    err = ENone /\
-    match sorted_get osz sdx' key with
-    | Some (_, s) => size_is_deleted s = true
-    | None => True
-    end /\
-    (* the .idx only ever grows by whole tombstone records for that key *)
-    exists n, idx' = idx ++ encode osz (repeat {| e_key := key; e_off := off; e_size := tombstone |} n).
+(* ---- SortedFileNeedleMap.Delete (repaired: .sdx writable, tombstone appended to the .idx) ---- *)
+Definition is_live (k : N) (es : list entry) : bool :=
+  match lookup k es with Some (_, s) => negb (size_is_deleted s) | None => false end.
 
-Theorem sorted_delete_partial : forall osz es key idx ioff off,
-  ok_osz osz -> Forall (wf_entry osz) es -> sorted_keys es ->
-  trig_sorted_delete_live osz (encode osz es) key = false ->
-  sorted_delete osz idx ioff (encode osz es) key off = (ENone, idx, ioff, encode osz es) /\
-  sorted_delete_spec osz es key.
+Lemma write_at_end : forall (f b : list N), write_at f (file_size f) b = f ++ b.
 Proof.
-  intros osz es key idx ioff off Hosz Hwf Hs Ht.
+  intros f b. unfold write_at, file_size. rewrite Nat2N.id.
+  rewrite firstn_all. rewrite skipn_all2 by lia. rewrite app_nil_r. reflexivity.
+Qed.
+
+(* FULL: a Delete on a freshly opened sorted-file map returns no error; when the key is live the
+   .sdx becomes the index with exactly that entry tombstoned and the .idx grows by exactly one
+   tombstone record; otherwise nothing changes *)
+Theorem sorted_delete_full : forall osz es key idx off,
+  ok_osz osz -> Forall (wf_entry osz) es -> sorted_keys es ->
+  sorted_delete osz idx (file_size idx) (encode osz es) key off =
+    if is_live key es
+    then (ENone, idx ++ enc_entry osz {| e_key := key; e_off := off; e_size := tombstone |},
+          file_size idx + entry_size osz, encode osz (set_deleted key es))
+    else (ENone, idx, file_size idx, encode osz es).
+Proof.
+  intros osz es key idx off Hosz Hwf Hs. unfold sorted_delete, is_live, file_size.
   pose proof (search_sorted_spec osz es key Hosz Hwf Hs) as Hsp.
-  assert (G : forall idx0 ioff0 off0,
-             sorted_delete osz idx0 ioff0 (encode osz es) key off0 = (ENone, idx0, ioff0, encode osz es)).
-  { intros idx0 ioff0 off0. unfold sorted_delete, trig_sorted_delete_live, file_size in *.
-    destruct (search_sorted osz (encode osz es) (N.of_nat (length (encode osz es))) key) as [m o s| |].
-    - destruct (size_is_deleted s); [reflexivity|discriminate].
-    - reflexivity.
-    - contradiction. }
-  split; [apply G|].
-  intros idx0 off0. rewrite G. split; [reflexivity|].
-  split; [|exists 0%nat; simpl; symmetry; apply app_nil_r].
-  unfold sorted_get, trig_sorted_delete_live, file_size in *.
-  destruct (search_sorted osz (encode osz es) (N.of_nat (length (encode osz es))) key) as [m o s| |]; auto.
-  destruct (size_is_deleted s); [reflexivity|discriminate].
+  pose proof (search_lookup osz es key Hosz Hwf Hs) as Hl.
+  destruct (search_sorted osz (encode osz es) (N.of_nat (length (encode osz es))) key) as [m o s| |];
+    simpl in Hl; rewrite <- Hl.
+  - destruct (size_is_deleted s); [reflexivity|]. cbn [negb].
+    rewrite search_mark_true by assumption.
+    assert (Hk : has_key key es = true).
+    { apply has_key_in. apply nth_error_In in Hsp. change key with (e_key {| e_key := key; e_off := o; e_size := s |}).
+      apply in_map. exact Hsp. }
+    rewrite Hk. fold (file_size idx). rewrite write_at_end. reflexivity.
+  - reflexivity.
+  - contradiction.
+Qed.
+
+(* and what the map then serves: the deleted key reads as deleted, every other key as before *)
+Theorem sorted_delete_reads : forall osz es key idx off k,
+  ok_osz osz -> Forall (wf_entry osz) es -> sorted_keys es ->
+  let '(err, _, _, sdx') := sorted_delete osz idx (file_size idx) (encode osz es) key off in
+  err = ENone /\ sorted_get osz sdx' k =
+    (if (k =? key) && is_live key es then option_map (fun v => (fst v, tombstone)) (lookup k es)
+     else lookup k es).
+Proof.
+  intros osz es key idx off k Hosz Hwf Hs. rewrite sorted_delete_full by assumption.
+  assert (G : forall es', Forall (wf_entry osz) es' -> sorted_keys es' ->
+              sorted_get osz (encode osz es') k = lookup k es').
+  { intros es' W S. unfold sorted_get, file_size. pose proof (search_lookup osz es' k Hosz W S) as H.
+    destruct (search_sorted osz (encode osz es') (N.of_nat (length (encode osz es'))) k); simpl in H; rewrite <- H; reflexivity. }
+  destruct (is_live key es) eqn:L; split; try reflexivity.
+  - rewrite G by auto using set_deleted_wf, set_deleted_sorted. rewrite lookup_set_deleted.
+    rewrite andb_true_r. reflexivity.
+  - rewrite andb_false_r. apply G; assumption.
 Qed.
 
 Definition witness_es : list entry := [ {| e_key := 1; e_off := 2; e_size := 20%Z |} ].
-
-Theorem sorted_delete_refuted : exists osz es key,
-  ok_osz osz /\ Forall (wf_entry osz) es /\ sorted_keys es /\ ~ sorted_delete_spec osz es key.
-Proof.
-  exists 4, witness_es, 1. split; [left; reflexivity|]. split; [|split].
-  - repeat constructor; vm_compute; congruence.
-  - repeat constructor.
-  - intros H. specialize (H [] 3).
-    assert (E : sorted_delete 4 [] 0 (encode 4 witness_es) 1 3 =
-                (EWrite, enc_entry 4 {| e_key := 1; e_off := 3; e_size := tombstone |}, 16, encode 4 witness_es))
-      by (vm_compute; reflexivity).
-    rewrite E in H. destruct H as [H _]. discriminate.
-Qed.
-
-(* On the witness: the delete of live key 1 fails with a write error, the key still reads as
-   live, and — indexFileOffset being 0 — the tombstone REPLACES the first record of the .idx
-   (here the put of key 1 itself; in general the record of some other key). *)
+(* the former failing witness, now deleted for real *)
 Lemma sorted_delete_witness :
-  sorted_delete 4 (encode 4 witness_es) 0 (encode 4 witness_es) 1 3 =
-    (EWrite, enc_entry 4 {| e_key := 1; e_off := 3; e_size := tombstone |}, 16, encode 4 witness_es)
-  /\ sorted_get 4 (encode 4 witness_es) 1 = Some (2, 20%Z).
-Proof. split; vm_compute; reflexivity. Qed.
-
+  sorted_delete 4 (encode 4 witness_es) (file_size (encode 4 witness_es)) (encode 4 witness_es) 1 3 =
+    (ENone, encode 4 witness_es ++ enc_entry 4 {| e_key := 1; e_off := 3; e_size := tombstone |}, 32,
+     encode 4 [ {| e_key := 1; e_off := 2; e_size := tombstone |} ]).
+Proof. vm_compute. reflexivity. Qed.
